@@ -12,12 +12,14 @@ import (
 	"bytes"
 	"crypto/aes"
 	"crypto/cipher"
+	"crypto/ecdsa"
 	"crypto/hmac"
 	"crypto/sha256"
 	"encoding/binary"
 	"fmt"
 	"math/big"
 
+	"github.com/ethereum/go-ethereum/crypto"
 	"github.com/ethereum/go-ethereum/rlp"
 
 	"verif.local/kit/refrlp"
@@ -218,4 +220,40 @@ func (n *c45Net) observeHandshake(p *c45Pkt, ch *Whoareyou) {
 	if want := c45RefMessage(p.msg); !bytes.Equal(pt, want) {
 		n.wireFail(p, "plaintext %x, canonical message %x", pt, want)
 	}
+}
+
+// c45ForgeHandshake builds a handshake packet from the wire specification:
+// source id claimed, identity proof and ECDH by signer, record attached.
+func c45ForgeHandshake(n *c45Net, challengeData []byte, claimed [32]byte, y *c45Peer, signer *ecdsa.PrivateKey, record []byte, msg Packet) (packet, keys []byte) {
+	eph := n.prngKey()
+	ephPub := refsecp.Compress(refsecp.Point{X: eph.PublicKey.X, Y: eph.PublicKey.Y})
+	sig, err := crypto.Sign(c45IDNonceHash(challengeData, ephPub, y.id), signer)
+	if err != nil {
+		n.fatalf("VERIF-HARNESS-BUG: sign: %v", err)
+	}
+	shared := refsecp.ScalarMult(new(big.Int).Set(eph.D), refsecp.Point{X: y.key.PublicKey.X, Y: y.key.PublicKey.Y})
+	info := append(append([]byte("discovery v5 key agreement"), claimed[:]...), y.id[:]...)
+	okm := c45HKDF32(refsecp.Compress(shared), challengeData, info)
+
+	auth := append([]byte{}, claimed[:]...)
+	auth = append(auth, 64, 33)
+	auth = append(auth, sig[:64]...)
+	auth = append(auth, ephPub...)
+	auth = append(auth, record...)
+	iv := make([]byte, 16)
+	nonce := make([]byte, 12)
+	n.prng.Read(iv)
+	n.prng.Read(nonce)
+	static := append([]byte("discv5"), 0, 1, 2)
+	static = append(static, nonce...)
+	static = binary.BigEndian.AppendUint16(static, uint16(len(auth)))
+	header := append(append([]byte{}, static...), auth...)
+	ad := append(append([]byte{}, iv...), header...)
+	block, _ := aes.NewCipher(okm[:16])
+	g, _ := cipher.NewGCM(block)
+	ct := g.Seal(nil, nonce, c45RefMessage(msg), ad)
+	mblock, _ := aes.NewCipher(y.id[:16])
+	masked := make([]byte, len(header))
+	cipher.NewCTR(mblock, iv).XORKeyStream(masked, header)
+	return append(append(iv, masked...), ct...), okm
 }
